@@ -558,6 +558,11 @@ def multigrid(model, sfield, efield, var, **kwargs):
     # Start the actual (recursive) multigrid cycle.
     while level == 0 or (level > 0 and it < cycmax):
 
+        # On the original grid the direction of semicoarsening can change from
+        # cycle to cycle, and with it whether this is the coarsest grid.
+        if level == 0 and level != var.clevel[var.sc_dir]:
+            cycmax = var.cycmax
+
         # Store errors for comparisons (previous and previous of same cycle).
         l2_prev = l2_last
         l2_stag[(it-1) % var.maxcycle] = l2_last
